@@ -357,8 +357,8 @@ common::register! {
     q_chunk = chunk::<_, 16> => 2,
     q_packet = packet::<_, 16> => 2,
     q_e_1x1 = e_1x1 => 2,
-    q_e_1x2 = e_1x2 => 2,
-    q_e_2x1 = e_2x1 => 2,
+    t_e_1x2 = e_1x2 => 2,
+    t_e_2x1 = e_2x1 => 2,
     q_e_2x0 = e_2x0 => 2,
     t_chunk = chunk::<_, 32> => 2,
     t_packet = packet::<_, 24> => 2,
